@@ -191,6 +191,7 @@ type op struct {
 
 type opsCase struct {
 	Init []byte // the history starts from BitfieldFromBytes(Init) (empty: from the zero value)
+	Spare []byte `json:",omitempty"` // bytes that follow Init in the same backing array: Init is a window of a larger buffer (spare capacity that is not zero)
 	Ops  []op
 }
 
@@ -249,6 +250,9 @@ func genOpsCase(rt *rapid.T) opsCase {
 		if len(c.Init) > 37 {
 			c.Init[37] &= 0x0f // byte 37 holds ids 297..304: keep the decoded ids <= 300
 		}
+		if rapid.IntRange(0, 2).Draw(rt, "window") == 0 {
+			c.Spare = rapid.SliceOfN(rapid.SampledFrom([]byte{0xff, 0xff, 0x01, 0x80, 0x00, 0x5a}), 1, 40).Draw(rt, "spare")
+		}
 	}
 	var prev []int
 	n := rapid.IntRange(1, 40).Draw(rt, "nops")
@@ -278,9 +282,13 @@ func opsProp(c opsCase) common.Result {
 	var bf crypto.Bitfield
 	ref := refSet{}
 	cls := map[string]bool{}
-	if len(c.Init) > 0 {
-		init := append([]byte(nil), c.Init...)
+	if len(c.Init) > 0 || len(c.Spare) > 0 {
+		buf := append(append([]byte(nil), c.Init...), c.Spare...)
+		init := buf[:len(c.Init):len(buf)]
 		bf = crypto.BitfieldFromBytes(init)
+		if len(c.Spare) > 0 {
+			cls["init-window-of-larger-buffer"] = true
+		}
 		ref = bitsOf(c.Init)
 		cls["init-bytes"] = true
 	}
